@@ -72,7 +72,8 @@ Definition bind {A B} (r : res A) (f : A -> res B) : res B :=
 Inductive guard :=
 | GAny
 | GRange (lo hi : Z) (lo_strict hi_strict : bool)   (* lo <(=) v <(=) hi, else ValueError *)
-| GAbove (lo : Z) (strict : bool).                  (* lo <(=) v *)
+| GAbove (lo : Z) (strict : bool)                   (* lo <(=) v *)
+| GLen (n : Z).                                     (* len(v) == n, else ValueError; no len() -> TypeError *)
 
 Inductive mkind :=
 | KProp (settable : bool) (g : guard)   (* class-level property (data descriptor) *)
@@ -193,9 +194,33 @@ Definition guard_check (g : guard) (v : pyval) : option exn :=   (* None = accep
       | Some (m, e) => if lo_ok m e lo ls then None else Some ValueError
       | None => Some TypeError
       end
+  | GLen n =>
+      match v with
+      | VList l | VTuple l => if Z.eqb (Z.of_nat (List.length l)) n then None else Some ValueError
+      | VStr s => if Z.eqb (Z.of_nat (String.length s)) n then None else Some ValueError
+      | _ => Some TypeError
+      end
   end.
 
-(* the final assignment of Processor.set:  obj[att] = v  if obj is a dict holding att, else setattr(obj, att, v) *)
+(* the guard of a property setter, looked up in the table regenerated from the source (Gen_C08.src_setter_guards):
+   class that defines the setter, property name; no row = no guard *)
+Fixpoint guard_of (tbl : list (string * string * guard)) (cls fld : string) : guard :=
+  match tbl with
+  | [] => GAny
+  | (c, f, g) :: r => if String.eqb c cls && String.eqb f fld then g else guard_of r cls fld
+  end.
+
+(* some value passes the guard *)
+Definition guard_inhabited (g : guard) : bool :=
+  match g with
+  | GAny | GAbove _ _ => true
+  | GLen n => (0 <=? n)%Z
+  | GRange lo hi ls hs => if ls && hs then (lo <? hi)%Z else if ls || hs then (lo <? hi)%Z else (lo <=? hi)%Z
+  end.
+
+(* the final assignment of Processor.set:  obj[att] = v  if obj is a dict holding att; setattr(obj, att, v) if obj is a
+   Mapping (Arguments refuses unknown names itself), if type(obj) has a property att (its setter decides) or if att is
+   an entry of obj.__dict__ holding a plain value (None, str, number, array, list/tuple of those); else AttributeError *)
 Definition assign (t : tree) (att : string) (v : pyval) : res tree :=
   match t with
   | Leaf _ => Raise AttributeError                      (* scalars / None have no settable attributes *)
@@ -218,11 +243,13 @@ Definition assign (t : tree) (att : string) (v : pyval) : res tree :=
           end
       | Some _ => Raise AttributeError                  (* property without setter *)
       | None =>
+          (* no property: only an existing entry of the instance __dict__ that holds a plain value is assigned;
+             an unknown name, a method / class constant, an attribute holding an object -> AttributeError *)
           let open := match k with NObj o => o | _ => true end in
           if open then
             match find is_inst att ms with
-            | Some _ => Ok (Node k (subst is_inst att (fun _ => Leaf v) ms))
-            | None => Ok (Node k (MCons att KInst (Leaf v) ms))   (* a NEW attribute appears *)
+            | Some (_, Leaf _) => Ok (Node k (subst is_inst att (fun _ => Leaf v) ms))
+            | _ => Raise AttributeError
             end
           else Raise AttributeError
       end
@@ -250,14 +277,23 @@ Fixpoint set_at (t : tree) (body : list string) (att : string) (v : pyval) : res
 Definition set (t : tree) (k : list string) (v : pyval) : res tree :=
   match split_last k with None => Raise AttributeError | Some (body, att) => set_at t body att v end.
 
-(* Processor.get = operator.attrgetter(key): plain getattr at every component (a dict's items are NOT attributes) *)
+(* Processor.get: getattr at every component, except that an item of a dict is found first at every component and
+   a declared argument of an Arguments object is found first at the LAST component (as has() and set() do) *)
+Definition item_first (k : nkind) (last : bool) : bool :=
+  match k with NDict => true | NArgs => last | _ => false end.
+
+Definition lookup (first : bool) (k : nkind) (n : string) (ms : mlist) : option (mkind * tree) :=
+  if first then orelse (find is_item n ms) (getattr k n ms) else getattr k n ms.
+
+Definition is_nil {A} (l : list A) : bool := match l with [] => true | _ => false end.
+
 Fixpoint get (t : tree) (k : list string) : res tree :=
   match k with
   | [] => Ok t
   | p :: k' =>
       match t with
       | Leaf _ => Raise AttributeError
-      | Node nk ms => match getattr nk p ms with
+      | Node nk ms => match lookup (item_first nk (is_nil k')) nk p ms with
                       | Some (_, c) => get c k'
                       | None => Raise AttributeError
                       end
@@ -302,6 +338,32 @@ Definition tail_is_setting (t : tree) (att : string) : bool :=
                 end
       end
   end.
+
+(* the key ends on an existing setting that may be assigned: an item of a dict, a declared argument, a property
+   with a setter, an instance attribute holding a value (not an object) *)
+Definition tail_is_target (t : tree) (att : string) : bool :=
+  match t with
+  | Leaf _ => false
+  | Node NDict ms | Node NArgs ms => match find is_item att ms with Some _ => true | None => false end
+  | Node k ms =>
+      match find is_prop att ms with
+      | Some (KProp true _, _) => true
+      | Some _ => false
+      | None => match k with
+                | NObj false => false
+                | _ => match find is_inst att ms with Some (_, Leaf _) => true | _ => false end
+                end
+      end
+  end.
+
+Fixpoint targets_at (t : tree) (body : list string) (att : string) : bool :=
+  match body with
+  | [] => tail_is_target t att
+  | p :: body' => match step t p with SFound _ c => targets_at c body' att | _ => false end
+  end.
+
+Definition targets (t : tree) (k : list string) : bool :=
+  match split_last k with None => false | Some (b, a) => targets_at t b a end.
 
 Fixpoint targets_setting_at (t : tree) (body : list string) (att : string) : bool :=
   match body with
@@ -533,8 +595,7 @@ Definition literal_eval (s : string) : option pyval :=
 (* pyxel.evaluator.eval_entry on a str *)
 Definition eval_entry (s : string) : res pyval :=
   match literal_eval s with
-  | Some VNone => Raise AssertionError          (* `assert isinstance(new_value, str | Number | Sequence)` *)
-  | Some v => Ok v
+  | Some v => Ok v                              (* `assert isinstance(new_value, str | Number | Sequence | None)` *)
   | None =>
       match list_ascii_of_string s with
       | [] => Raise IndexError                  (* value[0] on "" *)
@@ -616,20 +677,20 @@ Definition split_dots (s : string) : list string := split_dots_aux s [].
 
 Definition contains (sub s : string) : bool := match index 0 sub s with Some _ => true | None => false end.
 
-(* key[: key.find(".arguments")]  — find = -1 drops the last character, as Python does *)
-Definition model_prefix (key : string) : string :=
-  match index 0 ".arguments" key with
-  | Some n => substring 0 n key
-  | None => substring 0 (String.length key - 1) key
-  end.
+(* ".".join(key.split(".")[:3]) + ".enabled"  for a key that starts with "pipeline." *)
+Definition model_flag_key (k : list string) : list string := (firstn 3 k ++ ["enabled"])%list.
+
+Definition is_pipeline_key (k : list string) : bool :=      (* key.startswith("pipeline.") *)
+  match k with p :: _ :: _ => String.eqb p "pipeline" | _ => false end.
 
 Definition check_step (t : tree) (key : string) : option exn :=    (* None = accepted *)
-  match has t (split_dots key) with
+  let k := split_dots key in
+  match has t k with
   | Raise e => Some e
   | Ok false => Some KeyError
   | Ok true =>
-      if contains "pipeline." key then
-        match getv t (split_dots (model_prefix key ++ ".enabled")) with
+      if is_pipeline_key k then
+        match getv t (model_flag_key k) with
         | Raise e => Some e
         | Ok v => if truthy v then None else Some ValueError
         end
@@ -659,11 +720,9 @@ Definition targets_argument (t : tree) (k : list string) : bool :=
 Definition spec_step_ok (t : tree) (key : string) : bool :=
   let k := split_dots key in
   if (if targets_setting t k then true else targets_argument t k) then
-      match k with
-      | "pipeline" :: g :: m :: _ :: _ =>
-          match getv t ["pipeline"; g; m; "enabled"] with Ok v => truthy v | _ => false end
-      | _ => true
-      end
+      if is_pipeline_key k       (* pipeline.<group>.<model>.<...>: the model must be enabled *)
+      then match getv t (model_flag_key k) with Ok v => truthy v | _ => false end
+      else true
   else false.
 
 (* ------------------------------------------------------------------------------------ correspondence *)
@@ -828,9 +887,17 @@ Definition viol_has_sound (c : kcase) : bool :=
   | _ => false
   end.
 
+(* clause 9: get() returns something only for a key whose path exists in the settings (before or after the call) *)
+Definition viol_get_sound (c : kcase) : bool :=
+  match o_get c with
+  | Ok _ => negb (existsb (fun e => let '(p, _, _) := e in key_eqb p (c_key c)) (flat [] 0 (c_tree c) ++ flat [] 0 (o_after c))%list)
+  | _ => false
+  end.
+
 Definition viol_clause (n : nat) (c : kcase) : bool :=
   match n with
   | 1 => viol_unresolved c | 2 => viol_failed_changes c | 3 => viol_frame c | 4 => viol_set_get c | 5 => viol_has_sound c
+  | 9 => viol_get_sound c
   | _ => false
   end%nat.
 
@@ -839,7 +906,7 @@ Definition violations (n : nat) (cs : list kcase) : list Z := indices_where (vio
 (* one pass: per case  mismatch_kind + 10 * (bit mask of the violated clauses 1..5) *)
 Definition case_report (c : kcase) : Z :=
   let b (n : nat) (w : Z) := if viol_clause n c then w else 0%Z in
-  (Z.of_nat (case_mismatch c) + 10 * (b 1%nat 1 + b 2%nat 2 + b 3%nat 4 + b 4%nat 8 + b 5%nat 16))%Z.
+  (Z.of_nat (case_mismatch c) + 10 * (b 1%nat 1 + b 2%nat 2 + b 3%nat 4 + b 4%nat 8 + b 5%nat 16 + b 9%nat 256))%Z.
 Definition report (cs : list kcase) : list Z := map case_report cs.
 
 (* eval_entry cases *)
@@ -851,7 +918,8 @@ Definition e_mismatches (cs : list ecase) : list Z :=
 Record rcase := { r_atoms : list atom; r_shape : nat; r_obs : res pyval }.
 
 (* validate_steps cases *)
-Record vcase := { v_tree : tree; v_keys : list string; v_obs : option exn }.
+Record vcase := { v_tree : tree; v_keys : list string; v_obs : option exn;
+                  v_ran : option (option exn * nat) }.   (* the sweep itself, if it was run: outcome, models executed *)
 Definition v_mismatches (cs : list vcase) : list Z :=
   indices_where (fun c => negb (opt_exn_eqb (validate_steps (v_tree c) (v_keys c)) (v_obs c))) cs 0%Z.
 (* spec: an error iff some key is undeclared / belongs to a disabled model *)
@@ -859,8 +927,17 @@ Definition v_viol_silent (c : vcase) : bool :=      (* a bad key was accepted *)
   match v_obs c with None => negb (forallb (spec_step_ok (v_tree c)) (v_keys c)) | Some _ => false end.
 Definition v_viol_refused (c : vcase) : bool :=     (* all keys fine, yet refused *)
   match v_obs c with Some _ => forallb (spec_step_ok (v_tree c)) (v_keys c) | None => false end.
+(* "rejected before any pipeline runs": with a key the specification does not admit among the steps, the sweep
+   must end in an error and no model may have been executed *)
+Definition v_viol_ran (c : vcase) : bool :=
+  match v_ran c with
+  | None => false
+  | Some (r, calls) =>
+      if forallb (spec_step_ok (v_tree c)) (v_keys c) then false
+      else match r with None => true | Some _ => negb (Nat.eqb calls 0) end
+  end.
 Definition v_violations (n : nat) (cs : list vcase) : list Z :=
-  indices_where (match n with 1%nat => v_viol_silent | _ => v_viol_refused end) cs 0%Z.
+  indices_where (match n with 1%nat => v_viol_silent | 2%nat => v_viol_refused | _ => v_viol_ran end) cs 0%Z.
 
 (* literal values whose rendering is the text a user writes for them (scalar subset) *)
 Inductive lit := LInt (z : Z) | LDec (m e : Z) | LBool (b : bool) | LNone | LWord (s : string).
@@ -878,6 +955,51 @@ Definition render_lit (v : lit) : string :=
   | LWord s => s
   end.
 
-(* the part of the subset for which the round trip is PROVED for all values (see C08_literal_roundtrip_partial) *)
-Definition lit_ok (v : lit) : bool :=
-  match v with LWord s => bare_word s | LBool _ => true | _ => false end.
+(* well-formed literal values: a word must be a bare word (letters and underscores, not True / False / None) *)
+Definition lit_wf (v : lit) : bool :=
+  match v with LWord s => bare_word s | _ => true end.
+
+(* ------------------------------------------------------------------------------------ literal values with sequences *)
+
+(* the values a user can write as a literal text: scalars, quoted strings, lists and tuples of those *)
+Inductive lval :=
+| LS (x : lit)
+| LQ (s : lstr)                 (* 'text' *)
+| LL (l : list lval)            (* [a, b, ...] *)
+| LT (l : list lval).           (* (a, b, ...)   (a,)   () *)
+
+Fixpoint joinl (l : list lstr) : lstr :=
+  match l with
+  | [] => []
+  | [x] => x
+  | x :: r => (x ++ ","%char :: " "%char :: joinl r)%list
+  end.
+
+Fixpoint rl (v : lval) : lstr :=
+  match v with
+  | LS x => list_ascii_of_string (render_lit x)
+  | LQ s => ("'"%char :: s ++ ["'"%char])%list
+  | LL l => ("["%char :: joinl (map rl l) ++ ["]"%char])%list
+  | LT l => ("("%char :: joinl (map rl l) ++ (match l with [_] => [","%char] | _ => [] end) ++ [")"%char])%list
+  end.
+
+Definition render_lval (v : lval) : string := string_of_list_ascii (rl v).
+
+Fixpoint lval_val (v : lval) : pyval :=
+  match v with
+  | LS x => lit_val x
+  | LQ s => VStr (string_of_list_ascii s)
+  | LL l => VList (map lval_val l)
+  | LT l => VTuple (map lval_val l)
+  end.
+
+(* well-formed: inside a sequence a word must be quoted; a quoted text holds no quote, backslash or newline *)
+Definition qtext_ok (s : lstr) : bool := no_char ("'"%char) s && no_char "\"%char s && no_char "010"%char s.
+
+Fixpoint lval_wf (inside : bool) (v : lval) : bool :=
+  match v with
+  | LS (LWord s) => negb inside && bare_word s
+  | LS _ => true
+  | LQ s => qtext_ok s
+  | LL l | LT l => forallb (lval_wf true) l
+  end.
